@@ -263,6 +263,11 @@ def o6(W, ob):
 
 def o4(W, ob):
     entries = [W.fn(UDP + '::handle_message')]
+    # handle_message logs the whole message with {:?}: the hand-written Debug / Display impls of the wire types are on the untrusted path too, whenever a
+    # subscriber enables that level (they are reached through the formatting machinery, which the call graph does not see)
+    fmts = [f for f in W.fx.fn_list if not f.derived and f.kind == 'method' and f.path.endswith('::fmt') and 'network::' in f.path]
+    ob.require_count(len(fmts), 2, 'hand-written fmt impls of the wire types')
+    entries += fmts
     st = panics.check_closure(W, ob, entries, 'untrusted-packet path (closure of UdpProtocol::handle_message)', 'O4')
     ob.require_count(st['sites'], 12, 'panic-capable sites on the untrusted path')
     ob.check(W.fx.unsafe_code_lint.lower() == 'forbid', 'crate|forbid-unsafe', '#![forbid(unsafe_code)] is in force',
@@ -337,4 +342,5 @@ OBLIGATIONS = [
     ('C08.V', 'no unreviewed condition in the pinned helpers', 'for each helper whose body this property\'s rules pin (tables/condition_terms.json), the terms its path conditions are built from (fields, parameters, call results -- no constants, operators or local names) are a subset of the reviewed vocabulary: one more `if` in front of a pinned result (a lock that may time out, "only while an endpoint is running") is reported; see rules/vocab.py', vocab.rule_for('C08')),
     ('C08.S', 'state inventory', 'every field of the structs this property\'s rules read (tables/state.json) is known, and is written only by its reviewed writers (or helpers only they call): a new field is new state across calls -- a cache, a flag, a stored deadline -- that nothing has shown to stay in step; a new writer is a second place that resets, re-arms or moves something; see rules/inventory.py', inventory.state_rule_for('C08')),
     ('C08.K', 'call inventory', 'every reviewed call of a function that writes state (tables/call_edges.json, callers in the structs this property\'s rules read) is still made, directly or through helpers: a call deleted as redundant is reported; see rules/inventory.py', inventory.call_rule_for('C08')),
+    ('C08.A', 'expression inventory', 'every arithmetic expression handed to a call or stored in a field, and what every closure given to an iterator adaptor / collection method returns, is one of the reviewed expressions of its function (tables/expressions.json; linear / guard normal forms, no local names): a changed literal, operator, operand order, factor, predicate or sort key is reported; see rules/inventory.py', inventory.expr_rule_for('C08')),
 ]
